@@ -4,13 +4,14 @@ import json, os, glob, subprocess
 ROOT = os.path.dirname(os.path.abspath(__file__))
 props = [json.loads(l) for l in open(os.path.join(ROOT, "properties.jsonl"))]
 checks, claimed = [], []
+CLAIMED = set(open(os.path.join(ROOT, "claimed.txt")).read().split())
 for p in props:
     pid = p["id"]
     planp = os.path.join(ROOT, "checks", pid.lower(), "plan.json")
     if not os.path.exists(planp):
         continue
     plan = json.load(open(planp))
-    if plan.get("unclaimed"):
+    if plan.get("unclaimed") or pid not in CLAIMED:
         continue
     m = plan.get("manifest", {})
     claimed.append(pid)
